@@ -636,7 +636,9 @@ def check_header_parser(fx, rep, rule):
         (("lit", b"#"), ("no-lit", SFP), ("until", (10, 13, COLON)), ("lit", b":"), ("until", (10, 13)), ("skipnl", None)): "kv",
         (("lit", b"#"), ("no-lit", SFP), ("until", (10, 13, COLON)), ("no-lit", b":"), ("skipnl", None)): "k",
     }
-    have = {s[0]: s for s in sk}
+    have = {}
+    for s_ in sk:
+        have.setdefault(s_[0], []).append(s_)       # (several paths may share one event sequence: every one of them is checked)
     missing = [e for e in want if e not in have]
     extra = [e for e in have if e not in want]
     # F1: the sourceFile value scan must be line-bounded
@@ -650,14 +652,15 @@ def check_header_parser(fx, rep, rule):
     for e, kind in want.items():
         if e not in have:
             continue
-        w = record_wiring(have[e][1], have[e][2])
-        if kind == "json":
-            g = w == ("adt", "ProguardRecord", "Header", (("key", ("lit", "str", "sourceFile")), ("value", some(("cap", 2)))))
-        elif kind == "kv":
-            g = w == ("adt", "ProguardRecord", "Header", (("key", call("core::str::trim", ("cap", 2))), ("value", some(call("core::str::trim", ("cap", 4))))))
-        else:
-            g = w == ("adt", "ProguardRecord", "Header", (("key", call("core::str::trim", ("cap", 2))), ("value", NONE)))
-        good = good and g
+        for sk_ in have[e]:
+            w = record_wiring(sk_[1], sk_[2])
+            if kind == "json":
+                g = w == ("adt", "ProguardRecord", "Header", (("key", ("lit", "str", "sourceFile")), ("value", some(("cap", 2)))))
+            elif kind == "kv":
+                g = w == ("adt", "ProguardRecord", "Header", (("key", call("core::str::trim", ("cap", 2))), ("value", some(call("core::str::trim", ("cap", 4))))))
+            else:
+                g = w == ("adt", "ProguardRecord", "Header", (("key", call("core::str::trim", ("cap", 2))), ("value", NONE)))
+            good = good and g
     rep.check(rule.replace(".3", ".4"), "%s/header/capture-wiring" % rule.replace(".3", ".4"), good and not missing, loc=F.short_file(b["sp"]),
               found="key/value wired (trimmed) from their captures" if good else "wiring differs", expected="Header{key: trim(key capture), value: trim(value capture) | sourceFile json value}")
     return sk
